@@ -365,4 +365,12 @@ example : (step f3Facts .wraps f3State (.waitCredit 1)).2 = .creditOk := by deci
 example : step f3Facts .checks f3State (.waitCredit 1) = ({ f3State with poisoned := true }, .panic) := by decide
 example : (step { F with creditAdd := .checked } .wraps f3State (.waitCredit 1)).2 = .creditTimeout := by decide
 
+/-- The extractor saw none of the source shapes it knows to be dangerous for this property (a third disjunct in
+the grant condition, a wrapping sum, an `abs_diff` in-flight, a file gate other than `==`, a `record_sent` that is
+not a high-water mark, an eviction that is an `if` or subtracts the wrong length, a `covers` / `replay_from`
+comparison other than the documented one, a pending resume that is read without being taken, …:
+`extract/transfer.py`, `suspicious_forms`). Such a shape makes this theorem fail; it never makes the check
+fall back to the committed default facts silently. -/
+theorem no_suspicious_forms : Gen.transferSuspicious = [] := by decide
+
 end Repe.C11
